@@ -101,7 +101,7 @@ func Main(args []string) int {
 			// quick tier: the triples (last in the alphabet) are tried in the first two blocks only, so that
 			// the depth-4 level stays inside the quick budget; the thorough tier tries them everywhere
 			if quick && d >= 2 {
-				return len(evs) - len(triples())
+				return len(evs) - lateEvents()
 			}
 			return len(evs)
 		},
@@ -139,11 +139,11 @@ func Main(args []string) int {
 		names = append(names, e.name())
 	}
 	rep.Set("alphabet", names)
-	rep.Set("bounds", map[string]interface{}{"blocks_per_history": depth, "ops_per_block": "0..3 (20 single operations, 16 listed pairs, 6 listed triples; quick tier: triples in the first two blocks only)", "alphabet_size": len(evs),
+	rep.Set("bounds", map[string]interface{}{"blocks_per_history": depth, "ops_per_block": fmt.Sprintf("0..3 (%d single operations, %d listed pairs, %d listed triples, %d events of the value-forwarding factory contract; quick tier: triples and factory events in the first two blocks only)", len(singles()), len(pairs()), len(triples()), len(factoryEvents())), "alphabet_size": len(evs),
 		"trailing_empty_blocks": quietBlocks, "search": "breadth-first, all successors of every new state, dedup on projected state digest"})
 	rep.Assume("the EVM view is read through a fresh instance of the adapter (vm.CommitStateDB over the account keeper and contract store) bound to the same state object the native read uses; the application's own adapter instance is never probed")
 	rep.Assume("native transactions cannot be signed by ETHSECP accounts at all (their key handler signs/verifies 32-byte digests only), so 'native from an ETHSECP account' does not exist; native sends TO them and OLVM transfers to ED25519 accounts are in the alphabet")
-	rep.Assume("value actually transferred = the transaction's value if the EVM reports success (event tag tx.status=1, read from the node's transaction index), else 0; the kill contract pays its whole balance to the caller")
+	rep.Assume("value actually transferred = the transaction's value if the EVM reports success (event tag tx.status=1, read from the node's transaction index), else 0; the kill contract pays its whole balance to the caller; the factory contract forwards 1 OLT to the address of its next creation and endows the creation with 2 OLT, which come back to it when the child's init code reverts")
 	rep.Assume("a byte-identical resubmission that executes again is counted and tagged, not judged (at-most-once is C05); rich accounts' balances are not part of the state identity")
 	if len(never) > 0 {
 		sort.Strings(never)
